@@ -3,7 +3,7 @@
 # Idempotent: does nothing if the environment already works.
 set -e
 cd "$(dirname "$0")"
-VENV=/verif/.venv
+VENV="$PWD/.venv"
 if [ -x "$VENV/bin/python" ] && "$VENV/bin/python" -c "import z3, checkpoint_schedules, numpy" 2>/dev/null; then
     exit 0
 fi
